@@ -1,8 +1,10 @@
 import FFVerif.Props.C08
 import FFVerif.Props.C08Inv
+import FFVerif.Props.C08Integrand
 import FFVerif.Pins.pinIntegrate
 import FFVerif.Pins.pinIdentityElementIndex
 import FFVerif.Pins.C08_infidelity_source_shape
+import FFVerif.Pins.pinGetIntegrand
 #print axioms FFVerif.C08.integrate_spec
 #print axioms FFVerif.C08.integrate_linear
 #print axioms FFVerif.C08.integrate_nonneg
@@ -25,6 +27,32 @@ import FFVerif.Pins.C08_infidelity_source_shape
 #print axioms FFVerif.C08.infidelity_perm_opers_entries
 #print axioms FFVerif.C08.infidelity_traceless_noise_opers
 #print axioms FFVerif.C08.infidelity_branches_agree
+#print axioms FFVerif.C08Integrand.integrand_entries_cm_total
+#print axioms FFVerif.C08Integrand.integrand_entries_cm_correlations_fidelity
+#print axioms FFVerif.C08Integrand.integrand_entries_cm_correlations_generalized
+#print axioms FFVerif.C08Integrand.integrand_entries_ff_total
+#print axioms FFVerif.C08Integrand.integrand_entries_ff_correlations
+#print axioms FFVerif.C08Integrand.filter_function_entries
+#print axioms FFVerif.C08Integrand.single_spectrum_is_broadcast
+#print axioms FFVerif.C08Integrand.integrand_ff_path_eq_cm_path
+#print axioms FFVerif.C08Integrand.getIntegrand_ff_path_eq_cm_path
+#print axioms FFVerif.C08Integrand.integrand_ff_slice_eq_cm_pair
+#print axioms FFVerif.C08Integrand.decay_amplitudes_path_independent
+#print axioms FFVerif.C08Integrand.decay_amplitudes_correlations_path_independent
+#print axioms FFVerif.C08Integrand.decay_amplitudes_correlations_entries
+#print axioms FFVerif.C08Integrand.infidelity_path_independent
+#print axioms FFVerif.C08Integrand.infidelityFromCM_eq_cm_path
+#print axioms FFVerif.C08Integrand.integrand_correlations_sum_to_total
+#print axioms FFVerif.C08Integrand.integrand_ff_correlations_sum_to_total
+#print axioms FFVerif.C08Integrand.decay_amplitudes_correlations_sum_to_total
+#print axioms FFVerif.C08Integrand.integrand_shape_documented
+#print axioms FFVerif.C08Integrand.integrand_rejects_iff
+#print axioms FFVerif.C08Integrand.index_check_iff
+#print axioms FFVerif.C08Integrand.frequency_axes_rejected_iff
+#print axioms FFVerif.C08Integrand.integrand_neither_source
+#print axioms FFVerif.C08Integrand.integrand_both_sources_fidelity
+#print axioms FFVerif.C08Integrand.einsum_strings
 #print axioms FFVerif.Pins.pinIntegrate
 #print axioms FFVerif.Pins.pinIdentityElementIndex
 #print axioms FFVerif.C08.infidelity_source_shape
+#print axioms FFVerif.Pins.pinGetIntegrand
